@@ -19,11 +19,11 @@
 enum { K_AGG, K_CHUNK, K_TSSYNC, K_TSCHECK, K_TSALIGN_SYNC, K_TSALIGN_CHECK, K_N };
 static const char *const kname[] = { "aggregate", "chunk_stream", "ts_sync", "ts_check", "ts_align(sync)", "ts_align(check)" };
 
-enum { CL_AGG, CL_CHUNK, CL_TSSYNC, CL_TSCHECK, CL_TSALIGN, CL_CUT_INSIDE_UNIT, CL_EMPTY_BUF, CL_ONEBYTE_BUF, CL_SEGMENTED, CL_GARBAGE, CL_FALSE_SYNC, CL_TAIL_DROPPED, CL_CUTTINGS_DIFFER, CL_RELEASE_MID, CL_AGG_FDSIZE, CL_SPLIT_HEAD, CL_CHUNK_RECONF, CL_AGG_REDEF };
+enum { CL_AGG, CL_CHUNK, CL_TSSYNC, CL_TSCHECK, CL_TSALIGN, CL_CUT_INSIDE_UNIT, CL_EMPTY_BUF, CL_ONEBYTE_BUF, CL_SEGMENTED, CL_GARBAGE, CL_FALSE_SYNC, CL_TAIL_DROPPED, CL_CUTTINGS_DIFFER, CL_RELEASE_MID, CL_AGG_FDSIZE, CL_SPLIT_HEAD, CL_CHUNK_RECONF, CL_AGG_REDEF, CL_CHUNK_BADCONF, CL_TSALIGN_REDEF };
 static const char *const class_names[] = { "aggregate", "chunk_stream", "ts_sync", "ts_check", "ts_align", "buffer_boundary_inside_output_unit",
     "empty_buffer", "one_byte_buffer", "segmented_buffer", "garbage_before_or_between_packets", "false_sync_in_payload", "unaligned_tail_dropped",
     "cuttings_differ", "release_before_end_of_stream", "aggregate_flow_def_announces_block_size", "buffer_is_head_of_a_split_block", "chunk_stream_set_mtu_before_release",
-    "aggregate_flow_def_set_again_in_mid_stream", NULL };
+    "aggregate_flow_def_set_again_in_mid_stream", "chunk_stream_invalid_set_mtu_before_release", "ts_align_flow_def_of_another_category_first", NULL };
 
 #define MAXSTREAM 4096
 #define MAXUNITS (MAXSTREAM + 32)
@@ -43,6 +43,8 @@ struct ctx {
     int mtu, align;         /* agg MTU / chunk mtu + align */
     int fdsize;             /* agg: block size announced in the flow definition (0: none) */
     int refd_at;            /* agg: a changed flow definition is set again before this buffer (-1: never); what is pending stays pending */
+    int predef;             /* ts_align: a flow definition of another category is set first (1: block.mpegts., 2: the other of aligned / raw); the pipe must behave as its LAST definition says */
+    int bad_mtu;            /* chunk_stream: an invalid set_mtu (index + 1 into a table) issued before the release: refused, and nothing changes */
     int mtu2, align2;       /* chunk_stream: configuration set after the last buffer, before the release (0: unchanged) */
     int ret;
     uint32_t classes;
@@ -185,6 +187,12 @@ static void run_pipe(struct ctx *c, const struct cutting *cut, struct units *out
     default: break;
     }
     if (!ubase_check(err)) { FAIL("config", "%s refused a valid configuration (%d)", kname[c->kind], err); }
+    if (c->kind >= K_TSALIGN_SYNC && c->predef) {
+        struct uref *fd0 = pfx_flow_def_block(pfx, c->predef == 1 ? "mpegts." : c->kind == K_TSALIGN_CHECK ? "foo." : "mpegtsaligned.");
+        int e0 = upipe_set_flow_def(p, fd0);
+        uref_free(fd0);
+        if (!ubase_check(e0)) FAIL("flowdef", "%s refused a block flow definition (%d)", kname[c->kind], e0);
+    }
     struct uref *fd = pfx_flow_def_block(pfx, c->kind == K_TSALIGN_CHECK ? "mpegtsaligned." : "foo.");
     /* aggregate anticipates the next packet with the block size announced by the flow definition, when there is one;
      * the packets themselves may be smaller or larger than announced */
@@ -210,6 +218,13 @@ static void run_pipe(struct ctx *c, const struct cutting *cut, struct units *out
         if (!uref) { c->ret = vp_internal(c->rep, "mk_buf"); break; }
         upipe_input(p, uref, NULL);
         if (pfx->nrecs - rec_from > 2 * MAXSTREAM / 1 || pfx->overflow) { FAIL("termination/budget", "%s keeps emitting buffers", kname[c->kind]); break; }
+    }
+    if (c->kind == K_CHUNK && c->bad_mtu && !c->ret) {
+        /* "a rejected setter leaves the previous value in force": the pending tail is flushed with the configuration that was accepted */
+        static const unsigned bm[4][2] = { { 0, 1 }, { 5, 0 }, { 4, 4 }, { 3, 7 } };
+        int e2 = upipe_chunk_stream_set_mtu(p, bm[c->bad_mtu - 1][0], bm[c->bad_mtu - 1][1]);
+        if (ubase_check(e2)) FAIL("config", "chunk_stream accepted set_mtu(%u, %u)", bm[c->bad_mtu - 1][0], bm[c->bad_mtu - 1][1]);
+        c->classes |= 1u << CL_CHUNK_BADCONF;
     }
     if (c->kind == K_CHUNK && c->mtu2 && !c->ret) {
         int e2 = upipe_chunk_stream_set_mtu(p, c->mtu2, c->align2);
@@ -251,6 +266,8 @@ static int run(const uint8_t *tp_, size_t len, struct vp_report *rep, unsigned f
         if (c->align2 >= c->mtu2) c->align2 = 1;
         c->classes |= 1u << CL_CHUNK_RECONF;
     }
+    if (c->kind >= K_TSALIGN_SYNC) { c->predef = (cb + cfgb * 3) % 3; if (c->predef) c->classes |= 1u << CL_TSALIGN_REDEF; }
+    if (c->kind == K_CHUNK && (cfgb / (K_N * 2)) % 4 == 2) c->bad_mtu = 1 + (cb + cfgb) % 4;
     { unsigned q = (cfgb / (K_N * 2)) % 4; c->fdsize = q == 0 ? 0 : q == 1 ? 1 : q == 2 ? (c->mtu + 1) / 2 : c->mtu; if (c->kind == K_AGG && c->fdsize) c->classes |= 1u << CL_AGG_FDSIZE; }
     c->refd_at = (c->kind == K_AGG && (cb + cfgb * 7) % 5 < 2) ? ((cb >> 3) + cfgb) % 8 : -1;      /* (uses no tape octet) */
     h = vp_hash_mix(h, cfgb); h = vp_hash_mix(h, cb); h = vp_hash_mix(h, c->align);
